@@ -449,6 +449,73 @@ fn restart_spec(pool: &Pool, ix: &PoolIndex, seed: u64, allow_intra: bool) -> Ru
     chain.unwrap()
 }
 
+/// "Thread parade": a thread-per-request server. One or two long-lived callers work through a list of calls while one
+/// or two other clients hand every call (or every second call) to a new OS thread: 130-520 threads come and go in one
+/// process, at most four alive at a time. State indexed by how many threads a process has seen - round-robin
+/// stripes, per-thread slots handed out from a counter, tables keyed by a recycled thread id - wraps or is reused
+/// only then. All callers use placeholder-sensitive expressions of one evaluator (one the change touches, if any).
+fn parade_spec(pool: &Pool, ix: &PoolIndex, seed: u64, allow_intra: bool) -> RunSpec {
+    let mut r = Rng::new(mix(seed, 0x7061_7261_6465_32));
+    let ev = if !ix.hint_evs.is_empty() && r.chance(0.8) { *r.pick(&ix.hint_evs) } else { *r.pick(&ALL_EV) };
+    let mut work: Vec<u32> = Vec::new();
+    let mut guard = 0;
+    while work.len() < 24 && guard < 2000 {
+        guard += 1;
+        let e = if !ix.sensitive_exprs.is_empty() && r.chance(0.8) {
+            let ex = *r.pick(&ix.sensitive_exprs);
+            *r.pick(&pool.by_expr[ex as usize])
+        } else if !ix.ok_by_ev[ev as usize].is_empty() {
+            *r.pick(&ix.ok_by_ev[ev as usize])
+        } else {
+            *r.pick(&ix.ok)
+        };
+        let en = &pool.entries[e as usize];
+        if en.call.ev == ev && en.ticks < 20_000 && !matches!(en.oracle, Outcome::Panic(_)) {
+            work.push(e);
+        }
+    }
+    if work.is_empty() {
+        work.push(ix.ok[0]);
+    }
+    let nlong = if r.chance(0.7) { 1 } else { 2 };
+    let nshort = if r.chance(0.6) { 1 } else { 2 };
+    let threads_total = [130usize, 136, 150, 200, 260, 300, 520][r.below(7)];
+    let per_thread = if r.chance(0.5) { 1 } else { 2 };
+    let mut clients: Vec<Vec<u32>> = Vec::new();
+    let mut churn: Vec<Vec<u32>> = Vec::new();
+    for _ in 0..nlong {
+        let n = threads_total * per_thread / nshort;
+        clients.push((0..n).map(|_| *r.pick(&work)).collect());
+        churn.push(Vec::new());
+    }
+    for _ in 0..nshort {
+        let n = threads_total * per_thread / nshort;
+        clients.push((0..n).map(|_| *r.pick(&work)).collect());
+        churn.push((0..n as u32).filter(|k| (*k as usize + 1) % per_thread == 0).collect());
+    }
+    let n = clients.len();
+    let policy = pick_policy(&mut r, n, RunKind::Short, allow_intra);
+    let est_steps: u64 = clients.iter().map(|c| c.iter().map(|e| pool.entries[*e as usize].ticks as u64 + 1).sum::<u64>() + 1).sum();
+    RunSpec {
+        seed,
+        clients,
+        churn,
+        policy,
+        start: 0,
+        switches: Vec::new(),
+        est_steps,
+        want_trace: false,
+        faults_enabled: vec!["thread_parade"],
+        clock_jumps: vec![vec![]; n],
+        stack_depths: vec![vec![]; n],
+        cpu_limits: vec![0; n],
+        kill_step: 0,
+        io_fault: 0,
+        power: 0,
+        next: None,
+    }
+}
+
 /// A run around syntax the change under test may have introduced: one or two calls that use a new word (chosen by
 /// kind of outcome first, so that the rare ones - accepted, or failing inside - are not drowned among the rejected),
 /// then one call of every function / operator bucket of an evaluator, each compared with its isolated evaluation:
@@ -484,8 +551,12 @@ fn new_word_spec(pool: &Pool, ix: &PoolIndex, seed: u64, allow_intra: bool) -> R
                 probes.push(*r.pick(list));
             }
         }
+        // and other uses of the new words: what one of them leaves may be visible only to another
+        for _ in 0..r.range(4, 20) {
+            probes.push(*r.pick(&ix.new_words));
+        }
         r.shuffle(&mut probes);
-        probes.truncate(70);
+        probes.truncate(80);
         let mid = probes.len() / 2;
         for (i, p) in probes.iter().enumerate() {
             if i == mid && r.chance(0.3) {
@@ -573,6 +644,10 @@ pub fn make_spec(pool: &Pool, ix: &PoolIndex, seed: u64, kind: RunKind, allow_in
         return stall_wrap_spec(pool, seed, base);
     }
     if kind == RunKind::Crowd {
+        // a third of the crowd batch is the thread parade
+        if mix(seed, 0x7061_7261_6465) % 100 < 33 {
+            return parade_spec(pool, ix, seed, allow_intra);
+        }
         return crowd_spec(pool, ix, seed);
     }
     if kind == RunKind::Restart {
